@@ -785,6 +785,17 @@ func topoOrder(fr *frame) []*Node {
 // runBody encodes a function body. Returns the list of return points.
 func (vc *VC) runBody(fr *frame, st0 *State, reach0 string) {
 	vc.buildGraph(fr)
+	if fr == vc.top {
+		// ghost flags reached(k): the header of loop k has been reached on the path (set in loopHeader)
+		for _, l := range fr.loops {
+			name := fmt.Sprintf("calledloop.%d", l.ordinal)
+			if vc.enc.mapMemSorts == nil {
+				vc.enc.mapMemSorts = map[string]string{}
+			}
+			vc.enc.mapMemSorts[name] = "Bool"
+			st0.mem[name] = "false"
+		}
+	}
 	fr.entrySt = st0.clone()
 	order := topoOrder(fr)
 	if len(order) != len(fr.nodes) {
